@@ -22,10 +22,10 @@ func TestMain(m *testing.M) {
 			"newlines, trailing partial lines, only newlines; 1-3 rounds on one writer, as repeated runs of one loaded project do). Model: each round delivers "+
 			"split(text, newline) without a final empty element, in order, exactly once. (b) rapid draws projects and histories as in C01 whose bodies "+
 			"print() and write generated chunked output, with failing bodies (some of which first remove the state directory's temp folder, so that recording "+
-			"the failure fails too), removed (missing) dependencies, dependency cycles written in BUILD files, dry "+
+			"the failure fails too), removed (missing) dependencies, dependency labels that name nothing (no such target, package without a BUILD file), dependency cycles written in BUILD files, dry "+
 			"runs, sub-target builds and repeated runs of one loaded project; targets run in parallel. Oracle per build and label: the event sequence is "+
 			"UpToDate | Evaluating Print* (Succeeded|Failed) | Failed, a lone Failed only for a target with a missing dependency or on/behind a cycle, "+
-			"nothing at all only downstream of a failure; every Print lies between that label's Evaluating and its completion and the printed lines equal "+
+			"nothing at all only downstream of a failure; a visited target with a dependency that names nothing and no other failing dependency reports exactly a lone Failed; every Print lies between that label's Evaluating and its completion and the printed lines equal "+
 			"the expected lines exactly once in order; Evaluating for a function target iff its body started (real runs); a dependent's first event follows "+
 			"its dependencies' last events; RunDone exactly once per run, after the requested target's last event, carrying Run's error. Non-trivial = "+
 			">=2 targets executed and some output was written in >=2 chunks that split a line. Distinct by case JSON.",
